@@ -14,14 +14,14 @@ import (
 
 // SimCheck describes how one property is decided on the sim engine.
 type SimCheck struct {
-	Prop        string
-	Workload    string
-	Profile     func(thorough bool) *Profile
-	QuickCases  int
+	Prop          string
+	Workload      string
+	Profile       func(thorough bool) *Profile
+	QuickCases    int
 	ThoroughCases int
 	// NonTrivial says whether the monitored situation actually arose in a case.
-	NonTrivial  func(r *Result) bool
-	Rule        string
+	NonTrivial func(r *Result) bool
+	Rule       string
 	// Floors: monitor counters that must be reached over the whole run, else the run observed too little.
 	Floors      map[string]int
 	Judged      []string // counters reported in evidence as "events judged"
@@ -180,14 +180,14 @@ func RunSimCheck(run *harness.Run, sc *SimCheck) int {
 		}
 	}
 	cov := map[string]interface{}{
-		"evaluations":         cases,
-		"distinct_nontrivial": len(nontrivial),
-		"rule":                sc.Rule,
-		"samples":             samples,
-		"scheduler_steps":     steps,
-		"distinct_schedules":  len(scheds),
-		"distinct_abstract_states": len(states),
-		"commits_observed":    commits,
+		"evaluations":                           cases,
+		"distinct_nontrivial":                   len(nontrivial),
+		"rule":                                  sc.Rule,
+		"samples":                               samples,
+		"scheduler_steps":                       steps,
+		"distinct_schedules":                    len(scheds),
+		"distinct_abstract_states":              len(states),
+		"commits_observed":                      commits,
 		"cases_with_violation_of_this_property": len(violCases),
 	}
 	judged := map[string]int{}
@@ -271,7 +271,6 @@ func replaySim(run *harness.Run, sc *SimCheck, p *Profile) int {
 	}
 	return run.Conclude(findings, nil)
 }
-
 
 // ScriptedFindings turns the violations of a scripted scenario into findings with a replay file.
 func ScriptedFindings(prop, name string, r *Result) []harness.Finding {
